@@ -22,8 +22,8 @@ def hasChild {α : Type} : List (Item α) → Bool
 
 /-- what `element_decode` may be given for a valid element (one level) -/
 structure WF1 {α : Type} (m : Mapper) (f : Facts) (hd : Hd) (its : List (Item α)) : Prop where
-  attrsUm : ∀ kv ∈ hd.attrs, m.umA (m.mp kv.1) = kv.1
-  attrsNodup : ((hd.attrs.map fun kv => (m.mp kv.1, kv.2)).map (·.1)).Nodup
+  attrsUm : ∀ kv ∈ hd.attrs, m.umA (m.mpA kv.1) = kv.1
+  attrsNodup : ((hd.attrs.map fun kv => (m.mpA kv.1, kv.2)).map (·.1)).Nodup
   attrsNodup' : (hd.attrs.map (·.1)).Nodup
   textOk : ∀ t, hd.text = some t → t.isNull = false
   textAlone : hd.text.isSome = true → its = []
@@ -156,7 +156,7 @@ theorem unmap_attrs {α : Type} {m : Mapper} {f hd} {its : List (Item α)} (w : 
     dictUpdate [] ((decAttrs m hd).map fun kv => (m.umA kv.1, kv.2)) = hd.attrs := by
   unfold decAttrs
   rw [dictUpdate_nil _ w.attrsNodup]
-  have : ((hd.attrs.map fun kv => (m.mp kv.1, kv.2)).map fun kv => (m.umA kv.1, kv.2)) = hd.attrs := by
+  have : ((hd.attrs.map fun kv => (m.mpA kv.1, kv.2)).map fun kv => (m.umA kv.1, kv.2)) = hd.attrs := by
     rw [List.map_map]
     conv => rhs; rw [← List.map_id hd.attrs]
     apply List.map_congr_left
